@@ -11,7 +11,7 @@ from vf.ref.printer import Printer, NotPrintable, q, lit
 
 
 class MissingTable(Exception):
-    """A fetch step asks an integration for a table that integration does not have."""
+    """A fetch step asks an integration for a table (or a column, e.g. one still qualified by a name the integration does not know) that it does not have."""
 
 
 class NotInterpretable(Exception):
@@ -141,7 +141,7 @@ class Interp:
         try:
             cur = self.db.execute(sql)
         except sqlite3.Error as e:
-            if str(e).startswith('no such table'):
+            if str(e).startswith(('no such table', 'no such column')):
                 raise MissingTable(f'{e} (asked of {integ}): {sql}')
             raise NotInterpretable(f'fetch query not executable: {e}: {sql}')
         rows = cur.fetchall()
